@@ -252,7 +252,9 @@ def lint_rule(pat, what):
     """A rewrite pattern may not match on a comparison operator or a numeric
     literal: rules must not be able to absorb an edit of a constant or of a
     comparison (DESIGN 3.1)."""
-    core = re.sub(r'\\[dDwWsSbB]|\(\?[:=!<]+|\[[^\]]*\]|\{\d*,?\d*\}', '', pat)
+    core = re.sub(r'\\[dDwWsSbB]', '', pat)
+    core = re.sub(r'\\[\[\]().*+?{}|^$\\]', '', core)          # escaped punctuation
+    core = re.sub(r'\(\?[:=!<]+|\[[^\]]*\]|\{\d*,?\d*\}', '', core)
     if LINT_BAD.search(core):
         raise ExtractionDrift("%s: rewrite pattern %r mentions a comparison or a number (forbidden by policy)" % (what, pat))
 
@@ -310,6 +312,15 @@ def extract_function(repo, fn, unit_renames, callees):
             pos = m.start() + len(rep)
     elif re.search(r'\bthrow\b', body):
         raise ExtractionDrift("%s: body throws but spec has no throw_ret" % what)
+    # hoist: a declaration (static table) inside the body is moved verbatim to file scope
+    hoisted = []
+    for pat in fn.get('hoist', []):
+        lint_rule(pat, what)
+        ms = list(re.finditer(pat, body))
+        if len(ms) != 1: raise ExtractionDrift("%s: hoist pattern %r matched %d times" % (what, pat, len(ms)))
+        hoisted.append(ms[0].group(0))
+        body = body[:ms[0].start()] + body[ms[0].end():]
+        stats['hoist'] = stats.get('hoist', 0) + 1
     # per-function rules first (they see the original text)
     body = apply_rules(body, fn.get('rewrites', []), what, stats)
     # generic rules
@@ -395,7 +406,7 @@ def extract_function(repo, fn, unit_renames, callees):
         p = ms[nth].end()
         body = body[:p] + ' ' + textins + ' ' + body[p:]
     contract = fn.get('contract', '').strip()
-    c_text = '/* extracted from %s:%d */\n%s\n%s\n%s\n' % (fn['file'], line, fn['sig'], contract, body)
+    c_text = '/* extracted from %s:%d */\n%s%s\n%s\n%s\n' % (fn['file'], line, ''.join('/* hoisted from the body */ ' + h + '\n' for h in hoisted), fn['sig'], contract, body)
     diff = list(difflib.unified_diff(orig.splitlines(), (fn['sig'] + '\n' + body).splitlines(),
                                      fn['file'] + ':%d' % line, what + '.c', lineterm='', n=0))
     return dict(c_text=c_text, line=line, diff=diff, stats=stats, nloops=len(pts))
